@@ -21,9 +21,13 @@ import lib
 import l2
 import restgen as rg
 
+import os
+import threading
+
 PROP_FILE = "Properties/C06.v"
 CORR_FILES = ["Corr/RestCorr.v"]
 WORKERS = 6
+SEM = threading.BoundedSemaphore(WORKERS)      # at most 6 child processes of this check at any time
 
 HEADER = ("From Coq Require Import List ZArith NArith String.\n"
           "From Shoot Require Import Model.Directive Model.Rest Model.RestSpec Corr.RestCorr.\n"
@@ -117,7 +121,8 @@ def coq_shards(run, tag, rendered, fn, ctype, shard=300, pre=""):
         body = (HEADER + pre + "Definition cases : list %s := [\n%s\n].\n"
                 "Definition M := Eval vm_compute in %s cases.\nPrint M.\n"
                 % (ctype, ";\n".join(rendered[lo:lo + shard]), fn))
-        out = run.coq_eval("%s_%d" % (tag, k), body)
+        with SEM:
+            out = run.coq_eval("%s_%d" % (tag, k), body)
         return [(lo + i, v) for i, v in lib.parse_coq_list_pairs(out, "M")]
     res = []
     n = (len(rendered) + shard - 1) // shard
@@ -244,7 +249,8 @@ def gen_packages(run):
 def run_shoot_all(run, shoot, mod, pkgs):
     def one(pkg):
         types = ",".join(i["name"] for i in pkg["ifaces"])
-        return l2.run_shoot(shoot, mod / pkg["name"], ["rest", "-type=" + types], timeout=90)
+        with SEM:
+            return l2.run_shoot(shoot, mod / pkg["name"], ["rest", "-type=" + types], timeout=90)
     with cf.ThreadPoolExecutor(max_workers=WORKERS) as ex:
         return list(ex.map(one, pkgs))
 
@@ -338,7 +344,8 @@ def eval_cases(run, tag, cases, obs, fn="mismatches"):
                 ids.append(c["id"])
         body = (HEADER + "\n".join(defs) + "\nDefinition cases : list ccase := [\n%s\n].\n"
                 "Definition M := Eval vm_compute in %s cases.\nPrint M.\n" % (";\n".join(terms), fn))
-        out = run.coq_eval("%s_%d" % (tag, k), body)
+        with SEM:
+            out = run.coq_eval("%s_%d" % (tag, k), body)
         return [(ids[i], v, terms[i]) for i, v in lib.parse_coq_list_pairs(out, "M")]
     res = []
     with cf.ThreadPoolExecutor(max_workers=WORKERS) as ex:
@@ -452,6 +459,7 @@ import c06_findings as kf  # noqa: E402
 
 
 def main(run):
+    os.environ["GOMAXPROCS"] = str(WORKERS)          # go build -p and the Go programs of this check
     proof_ok = run.prove(PROP_FILE, CORR_FILES)
     shoot = run.build_shoot()
     restprobe = run.build_helper("restprobe")
@@ -476,7 +484,7 @@ def main(run):
         f_std = ex.submit(check_std, run, restprobe)
         f_l1 = ex.submit(check_l1, run, probe, pkgs)
         f_sh = ex.submit(run_shoot_all, run, shoot, mod, pkgs)
-        f_wit = ex.submit(kf.run_witnesses, run, shoot, mod, wit)
+        f_wit = ex.submit(kf.run_witnesses, run, shoot, mod, wit, SEM)
         shoot_res = f_sh.result()
         wit_state = f_wit.result()
         n_std, std_mism = f_std.result()
@@ -611,8 +619,10 @@ TRUSTED = [
     "backtracking leftmost-first matcher; equivalence with Go's regexp on the directive alphabet is established by the L1 "
     "differential run only (skipped, and recorded, when the verif hooks do not compile)",
     "text/template is not modelled: the meaning of restclient.tmpl:15-92 is given by hand as Model/Rest.v exec",
-    "go/ast, go/types and parser.ParseDir enter through the env record (type declarations of the file, class of a "
-    "qualified type, field declarations of a struct) written by the harness from the same abstract package it renders to Go",
+    "go/ast and parser.ParseDir enter through the env / iface records, which harness/go/cmd/restast fills by parsing the "
+    "very sources shoot is run on (go/parser with comments, CommentGroup.Text for the doc text, the type declarations "
+    "of the interface's file, the field declarations of every struct); go/types is replaced by syntax: context.Context "
+    "is the context parameter, every other qualified name declared as a non-alias type in the helper package is a named type",
     "the getter of an unexported field returns that field; net/http delivers the request it was given (the server-side "
     "decoding of path and query is the inverse of the client-side encoding); a cancelled context makes Do fail before any "
     "request is sent",
